@@ -65,7 +65,7 @@ def differential_path(P, Lex, tpl, want=("tree", "accept")):
             viol.append({"kind": "tree", "sig": "tree:" + _sig_of(d), "what": f"AST differs from the reference reading at {d}"})
     elif impl[0] != "ast" and ref[0] == "accept" and "accept" in want:
         if impl[0] == "ParseError":
-            viol.append({"kind": "rejected-valid", "sig": "rejected-valid:" + _err_sig(impl[1]), "what": f"valid translation unit rejected: {impl[1]}"})
+            viol.append({"kind": "rejected-valid", "sig": None, "msg": impl[1], "what": f"valid translation unit rejected: {impl[1]}"})
     if viol:
         m = eng.model()
         if m is None:
@@ -74,6 +74,8 @@ def differential_path(P, Lex, tpl, want=("tree", "accept")):
         for v in viol:
             v["toks"] = toks
             v["what"] = fill(v["what"], toks)
+            if v["sig"] is None:
+                v["sig"] = "rejected-valid:" + _err_sig(v.pop("msg"), toks)
         rec["viol"] = [v for v in viol if v["kind"] in _kinds(want)]
         if rec["viol"]:
             rec["cls"] += "-VIOL"
@@ -111,12 +113,19 @@ def _sig_of(d):
     return "/".join(tags[-3:])
 
 
-def _err_sig(msg):
+def _err_sig(msg, toks):
+    """kind of message + (type of the token before the reported one, type of the reported token);
+    with concrete coordinates the column is the token index + 1"""
     import re
 
-    m = msg.split(": ", 1)[-1]
-    m = re.sub("\x01[^\x02]*\x02", "<tok>", m)
-    return m[:40]
+    m = re.match(r"^[^:]*:(\d+):(\d+): (.*)$", msg, re.S)
+    if not m:
+        return re.sub("\x01[^\x02]*\x02", "<tok>", msg.split(": ", 1)[-1])[:40]
+    col = int(m.group(2))
+    what = m.group(3).split(":")[0].split(" ")[0]
+    cur = toks[col - 1][0] if 0 < col <= len(toks) else "?"
+    prev = toks[col - 2][0] if 1 < col <= len(toks) + 1 else "^"
+    return f"{what}:{prev},{cur}"
 
 
 # --------------------------------------------------------------------------- concrete replay
